@@ -265,7 +265,7 @@ def io_random(rnd, n, sid, fams, length):
         r = rnd.random()
         if r < 0.35:
             k = rnd.choice([0, 1, 2, n, n + 1, 2 * n + 1, rnd.randint(0, 2 * n + 1)])
-            steps.append({"op": "write", "vals": [rnd.randint(0, 255) for _ in range(k)], "fam": fam})
+            steps.append({"op": "write" if rnd.random() < 0.85 else "extend_ref", "vals": [rnd.randint(0, 255) for _ in range(k)], "fam": fam})
         elif r < 0.6:
             steps.append({"op": "read", "i": rnd.choice([0, 1, 2, n, n + 2, rnd.randint(0, n + 2)]), "fam": fam})
         elif r < 0.75:
